@@ -5,6 +5,7 @@ import PybropsModel.Model.LabelHeap
 import PybropsModel.Model.LabelMatX
 import PybropsModel.Model.LabelMatRepair
 import PybropsModel.Model.LabelMatFill
+import PybropsModel.Model.LabelDtype
 import Std.Data.HashSet
 open Lean
 
@@ -207,6 +208,20 @@ def opSpecStep : J.Op := fun j => do
   pure <| J.obj [("ok", J.ofBool (consistent && attached && partition)), ("consistent", J.ofBool consistent),
                  ("attached", J.ofBool attached), ("partition", J.ofBool partition), ("detail", J.ofStr detail)]
 
+def decIDt (j : Json) : J.R LabelDtype.IDt := do
+  match ← J.str j with
+  | "int8" => pure .i8 | "int16" => pure .i16 | "int32" => pure .i32 | "int64" => pure .i64
+  | "uint8" => pure .u8 | "uint16" => pure .u16 | "uint32" => pure .u32 | "uint64" => pure .u64
+  | s => J.fail s!"bad dtype {s}"
+
+def encIDt : LabelDtype.IDt → Json
+  | .i8 => J.ofStr "int8" | .i16 => J.ofStr "int16" | .i32 => J.ofStr "int32" | .i64 => J.ofStr "int64"
+  | .u8 => J.ofStr "uint8" | .u16 => J.ofStr "uint16" | .u32 => J.ofStr "uint32" | .u64 => J.ofStr "uint64"
+
+def encStore : Option (LabelDtype.IDt × List Int) → Json
+  | none => J.obj [("dtype", Json.null)]
+  | some (d, l) => J.obj [("dtype", encIDt d), ("l", J.ofList J.ofInt l)]
+
 /-- conformance ops for the numpy-like helpers of the model -/
 def opNp : J.Op := fun j => do
   let fn ← J.field j "fn" J.str
@@ -243,6 +258,17 @@ def opNp : J.Op := fun j => do
     let m ← J.field j "m" decMat
     let v ← J.field j "v" decMat
     pure <| encR (J.ofList (J.ofList (J.ofList J.ofInt))) "m" (insertMat a o m v)
+  | "dt_append" =>
+    let da ← J.field j "da" decIDt
+    let db ← J.field j "db" decIDt
+    let xs ← J.field j "l" (J.list J.int)
+    let ys ← J.field j "v" (J.list J.int)
+    pure (encStore (LabelDtype.appendStore da xs db ys))
+  | "dt_store" =>
+    let da ← J.field j "da" decIDt
+    let xs ← J.field j "l" (J.list J.int)
+    let ys ← J.field j "v" (J.list J.int)
+    pure (encStore (some (LabelDtype.storeInto da xs ys)))
   | other => J.fail s!"unknown np fn {other}"
 
 /-! ### square classes with any number of taxa axes (Model/LabelMatN.lean) -/
